@@ -62,7 +62,7 @@ theorem C10_anyfile_exact (exts : List String) (look : String → Ent) (mtime : 
   · simp
 
 /-- **C10_pyfile_exact_partial**: the same for the Python searcher's source suffixes, provided no
-byte-code file with a good magic number sits beside the module (see the witness below). -/
+byte-code file with a usable header sits beside the module (that case is `C10_pyfile_pyc`). -/
 theorem C10_pyfile_exact_partial (bytecode source : List String) (look : String → Ent) (mtime : Int)
     (rebuild : Bool) (hpyc : ∀ sfx ∈ bytecode, ∀ t h, look sfx = .file t h → h = none) :
     pyFile bytecode source look mtime rebuild = .notModified ↔
@@ -93,10 +93,32 @@ theorem C10_stub (names : List String) (name : String) (mtime : Int) (rebuild : 
     stub names name mtime rebuild = .notModified ↔ name ∈ names := by
   unfold stub; split <;> simp_all
 
-/-- **Witness (F18)**: a byte-code file with a good magic number whose following word is 0 (the
-PEP 552 *flags* word of every modern `.pyc`) makes the searcher answer not-found although an
-up-to-date source module exists. -/
-theorem C10_pyc_flags_witness :
+/-- **C10_pyfile_pyc**: the first byte-code file with a usable header decides by the timestamp written inside it
+(`hdr`: behind the PEP 552 flags word; files with a foreign magic number, hash-based or cut-off ones have none and are
+passed over): up to date exactly when that timestamp is not older than the source. -/
+theorem C10_pyfile_pyc (source pre post : List String) (sfx : String) (look : String → Ent) (mtime t p : Int)
+    (hpre : ∀ s ∈ pre, ∀ t h, look s = .file t h → h = none) (hl : look sfx = .file t (some p)) :
+    pyFile (pre ++ sfx :: post) source look mtime false = (if p ≥ mtime then .notModified else .notFound) := by
+  have hscan : scanPyc look mtime (pre ++ sfx :: post) = some (if p ≥ mtime then .notModified else .notFound) := by
+    induction pre with
+    | nil => simp [scanPyc, hl]
+    | cons s rest ih =>
+      simp only [List.cons_append]
+      unfold scanPyc
+      cases hs : look s with
+      | file t' h =>
+        have := hpre s (by simp) t' h hs
+        subst this
+        exact ih (fun x hx => hpre x (by simp [hx]))
+      | absent => exact ih (fun x hx => hpre x (by simp [hx]))
+      | dir => exact ih (fun x hx => hpre x (by simp [hx]))
+  unfold pyFile
+  simp [hscan]
+
+/-- a stale byte-code file decides even when an up-to-date source module lies beside it (the searcher stops at the
+first usable header); with the timestamp read from the right place this needs a byte-code file that really is older
+than the MIB -/
+theorem C10_stale_pyc_decides :
     pyFile [".pyc"] [".py"] (fun s => if s = ".pyc" then .file 100 (some 0) else if s = ".py" then .file 100 none else .absent)
       50 false = .notFound := by decide
 
